@@ -87,6 +87,11 @@ def compare(ctx, a, b, sa, sb, label, case):
                         case=case, expected=not eq, observed=ne)
     if eq and ha[0] == "hash" and hb[0] == "hash" and ha != hb:
         ctx.oracle_fail("equal-objects-hash-differently:" + ca, "a == b but hash(a) != hash(b) for %s vs %s" % (ca, cb), case=case)
+    for o, h, cn in ((a, ha, ca), (b, hb, cb)):
+        if h[0] == "unhashable":
+            # a class that defines __eq__ must stay usable as a dict / set key, consistently with it
+            ctx.oracle_fail("object-unhashable:" + cn, "hash(%s) raises TypeError: objects of this class cannot be dict or set keys" % cn,
+                            case=case, expected="a hash consistent with ==", observed="TypeError")
     if eq and ha[0] != hb[0]:
         ctx.oracle_fail("equal-objects-hash-differently:" + ca, "a == b but only one of them is hashable (%s vs %s)" % (ca, cb), case=case)
     return eq, ne, ha, hb
@@ -238,8 +243,7 @@ def nodes(ctx):
                     names[i], names[j], T.boolean(ka == kb)))
                 info.append(case)
     ctx.note("node classes compared pairwise: " + ", ".join(sorted(seen_classes)))
-    ctx.note("UnknownNode defines __eq__ without __hash__: hash() raises TypeError (modelled as HUnhashable); "
-             "'equal objects hash equally' is not violated by an unhashable class")
+    ctx.note("UnknownNode defines __eq__ without __hash__: hash() raises TypeError (modelled as HUnhashable): known finding object-unhashable:UnknownNode")
     bad = ctx.coq_check(IMPORTS, terms, preamble="\n".join(preamble), tag="c43nodes", shard=120)
     for ix in bad:
         ctx.mismatch("model-vs-impl:node-identity", "Model node_eq/node_ne/node_hash and the implementation differ on %s vs %s" % (info[ix]["a"], info[ix]["b"]),
